@@ -137,6 +137,11 @@ func (c *coordinatedBlockProposals) getLatestQuorumBlock() (ocr2keepers.BlockKey
 	)
 
 	for block, count := range c.recentBlocks {
+		if block.Hash == zeroHash {
+			// the zero hash is the "none yet" sentinel below; considering such a key
+			// would make the result depend on map iteration order
+			continue
+		}
 		if count >= int(c.quorumBlockthreshold) {
 			if (mostRecent.Hash == zeroHash) || // First consensus hash
 				(block.Number > mostRecent.Number) || // later height
